@@ -244,7 +244,8 @@ func (r Relation) Join(r2 Relation, keys, leftOutput, rightOutput NamesSlice) Se
 	if rows.IsLiteralTrue() {
 		return True
 	}
-	attrs := append(leftOutput, rightOutput...)
+	// Copy: leftOutput may share its backing array with other relations' headings.
+	attrs := append(append(make([]string, 0, count), leftOutput...), rightOutput...)
 	if len(attrs) == 2 {
 		at, val := 0, 1
 		if attrs[val] == "@" {
